@@ -28,6 +28,12 @@ from mc.boot import VERIF, det_env
 
 EVID = os.path.join(VERIF, "evidence")
 REPLAYS = os.path.join(VERIF, "replays")
+if os.environ.get("VERIF_REPO", "/repo") != "/repo":
+    # a run against another checkout (seeded-change confirmation) must not overwrite the evidence of /repo
+    from mc.build import BUILD as _ALT
+
+    EVID = os.path.join(_ALT, "evidence")
+    REPLAYS = os.path.join(_ALT, "replays")
 KNOWN = os.path.join(VERIF, "known_findings.json")
 
 
